@@ -1,4 +1,5 @@
 """C14 — DNS codec: RDATA reader/writer agreement, header flag tables, compression pointers (structural clauses)."""
+import re
 from ..util import *
 from ..prov import strip, norm, show, subterms
 from ..cfg import cfg_of
@@ -46,6 +47,7 @@ def run(ctx):
     _r5_r6(ctx)
     exact_label_rule(ctx)
     _r8_opt_removed(ctx)
+    _r9_record_header_verbatim(ctx)
 
 
 def _r8_opt_removed(ctx):
@@ -447,3 +449,103 @@ def _r5_r6(ctx):
                   "RFC 1035 2.3.4 limits a name to 255 octets; the decoder follows up to the depth bound of pointers without limiting the "
                   "expanded length, so a crafted reply yields names of tens of kilobytes and the encoder's `rdata.len() as u16` "
                   "RDLENGTH casts wrap (corrupting the relayed message)")
+
+
+def _weights(t, depth=0):
+    """a term built from +, * by constants and widening casts over reader calls, as [(weight, call term)]; None when it is anything else"""
+    t = norm(t)
+    if depth > 40:
+        return None
+    if t[0] == "field" and t[2] == "0" and norm(t[1])[0] == "bin" and norm(t[1])[1].endswith("WithOverflow"):
+        i = norm(t[1])
+        t = ("bin", i[1][:-len("WithOverflow")], i[2], i[3])
+    if t[0] == "cast":
+        return _weights(t[3], depth + 1)
+    if t[0] == "payload" and norm(t[2])[0] == "call":
+        return [(1, norm(t[2]))]
+    c = const_of(t)
+    if isinstance(c, int):
+        return [(c, None)]
+    if t[0] == "bin" and t[1] in ("Add", "BitOr"):
+        a, b = _weights(t[2], depth + 1), _weights(t[3], depth + 1)
+        return None if a is None or b is None else a + b
+    if t[0] == "bin" and t[1] in ("Mul", "Shl"):
+        a, b = _weights(t[2], depth + 1), _weights(t[3], depth + 1)
+        if a is None or b is None:
+            return None
+        ca, cb = all(x[1] is None for x in a), all(x[1] is None for x in b)
+        if ca and cb and len(a) == 1 and len(b) == 1:
+            return [(a[0][0] * b[0][0] if t[1] == "Mul" else a[0][0] << b[0][0], None)]
+        if ca and t[1] == "Mul":
+            a, b, cb = b, a, True
+        if not cb or len(b) != 1 or any(x[1] is None for x in a):
+            return None
+        k = b[0][0] if t[1] == "Mul" else (1 << b[0][0])
+        return [(w * k, x) for w, x in a]
+    return None
+
+
+def _r9_record_header_verbatim(ctx):
+    """type, class and TTL of a record are carried, not interpreted: the decoder stores the 16/16/32 bits it read (the OPT
+    pseudo-record keeps flags and the extended rcode in the TTL field, and unknown classes and types are relayed as they came)"""
+    P = ctx.P
+    decs = [b for b in P.bodies.values() if "dns::parse::" in b.id and b.kind != "closure" and list(find_aggs(P, "dns::dnspkt::RR", [b]))]
+    if not decs:
+        if ctx.config in ("default", "dns"):
+            ctx.bad("R9", "anchor:record-decoder", "", "no function of dns::parse builds an RR")
+        return
+    WANT = {"ttl": "u32", "class": "erbium::dns::dnspkt::Class", "rrtype": "erbium::dns::dnspkt::Type"}
+    WIDTH = {"u16": 2, "u32": 4}
+    n = 0
+    readers = set()
+    for b in decs:
+        ctx.saw(b)
+        T = terms(P, b)
+        for _, bb, idx, st in find_aggs(P, "dns::dnspkt::RR", [b]):
+            fields = dict(T.rvalue(st["rv"], bb, idx)[3])
+            for f, ty in WANT.items():
+                n += 1
+                t = norm(fields.get(f, ("unknown",)))
+                good, why = False, show(t)[:120]
+                if t[0] == "payload":
+                    c = norm(t[2])
+                    if c[0] == "call" and str(c[1]).endswith("::map_err"):
+                        c = norm(c[2][0])
+                    if c[0] == "call" and c[1] in P.sigs and sig_output(P.sigs[c[1]]).startswith("std::result::Result<%s," % ty):
+                        good = True
+                        readers.add(c[1])
+                ctx.check(good, "R9", "record-%s-stored-as-read" % f, ctx.where(b, st["sp"]),
+                          "the record's %s must be exactly what the %s reader returned (is %s)" % (f, ty.rsplit("::", 1)[-1], why))
+    ctx.floor("R9", "record header fields", n, 3)
+    # the readers themselves: a newtype around, or directly, the big-endian value of the next 2 / 4 octets
+    todo, seen = sorted(readers), set()
+    while todo:
+        f = todo.pop()
+        if f in seen or f not in P.bodies:
+            continue
+        seen.add(f)
+        b = P.bodies[f]
+        ctx.saw(b)
+        T = terms(P, b)
+        cfg = cfg_of(b)
+        for bb, idx, st in b.stmts():
+            if st["p"] != (0,) or "rv" not in st or st["rv"]["k"] != "agg" or st["rv"].get("variant") != "Ok":
+                continue
+            v = norm(dict(norm(T.rvalue(st["rv"], bb, idx))[3]).get("0", ("unknown",)))
+            if v[0] == "agg" and len(v[3]) == 1:          # Class(x) / Type(x)
+                v = norm(v[3][0][1])
+            name = f.rsplit("::", 1)[-1]
+            if v[0] == "payload" and norm(v[2])[0] == "call" and norm(v[2])[1] in P.sigs and norm(v[2])[1] != f:
+                g = norm(v[2])[1]
+                ctx.ok("R9", "reader:%s=%s" % (name, g.rsplit("::", 1)[-1]), ctx.where(b, st["sp"]))
+                todo.append(g)
+                continue
+            w = _weights(v)
+            m = re.match(r"std::result::Result<(u16|u32),", sig_output(P.sigs[f]))
+            okk = False
+            if w is not None and m and all(x[1] is not None for x in w):
+                width = WIDTH[m.group(1)]
+                order = sorted(w, key=lambda x: sum(1 for y in w if cfg.dominates(y[1][3], x[1][3])))
+                okk = [x[0] for x in order] == [256 ** (width - 1 - i) for i in range(width)] and len({x[1][1] for x in w}) == 1
+            ctx.check(okk, "R9", "reader:%s=big-endian-octets" % name, ctx.where(b, st["sp"]),
+                      "the value must be the next octets in network order, nothing else (is %s)" % show(v)[:160])
